@@ -69,10 +69,15 @@ def foreign_warmup(classes, dev, seed, per_opcode=2):
     return dict(seed=seed, order=others, cases=n, per_opcode=per_opcode)
 
 
+def _load_spec(modname):
+    import importlib
+    mod, _, attr = modname.partition(':')
+    return getattr(importlib.import_module(mod), attr or 'SPEC')
+
+
 def _worker(args):
     (modname, dev, opcodes, per_opcode, seed, driver_ok) = args
-    import importlib
-    spec = importlib.import_module(modname).SPEC
+    spec = _load_spec(modname)
     classes = device_classes()
     modes = classes[dev].disassemble
     warm = None
@@ -91,8 +96,7 @@ def _worker(args):
 def _confirm_plain(args):
     """Does the finding's case also deviate in a process where no other device ran first?"""
     (modname, case_json, driver_ok) = args
-    import importlib
-    spec = importlib.import_module(modname).SPEC
+    spec = _load_spec(modname)
     classes = device_classes()
     r = evaluate(dict(spec, tv=False), [Case.from_json(case_json)], classes, driver_ok)
     return bool(r['findings'])
@@ -166,6 +170,12 @@ def evaluate(spec, cases, classes, driver_ok):
                 m = re.search(r'real=([+-]\d+) spec=([+-]\d+)', det)
                 if m:
                     key['delta'] = int(m.group(1)) - int(m.group(2))
+                m = re.search(r'executing mn=([^/\s]+)/(\S+)', det)
+                if m:          # a later operation of a history: key on the instruction that was executing
+                    tbl = classes[c.dev].disassemble
+                    hit = [i_ for i_ in range(256) if tuple(tbl[i_]) == (m.group(1), m.group(2))]
+                    if len(hit) == 1:
+                        key.update(opcode=hit[0], mnemonic=m.group(1), mode=m.group(2))
             if asp == 'raise':
                 key['exc'] = det.split(':')[0]
             rpl = dict(case=c.to_json(), spec_reply=rp[:800], request=c.line('spec'))
